@@ -106,6 +106,16 @@ def library_half(ctx, findings):
         else:
             ctx.violate("a failed dbus_message_iter_append_basic leaves the appended value in the body: " + out, {"kind": "lib-oom", "suite": "oomappend", "out": out}, True)
     cov["append_witness"] = out
+    # --- whatever a failed append does to the message, releasing the message must leave nothing behind
+    out = subprocess.run([wire], input="wire oomleak\n", text=True, capture_output=True, env=env).stdout.strip()
+    m = re.match(r"trials=(\d+) failed=(\d+) fd-leaks=(\d+) block-leaks=(\d+) first=(.*)", out)
+    okl = bool(m) and int(m.group(3)) == 0 and int(m.group(4)) == 0 and int(m.group(2)) > 0
+    if not okl:
+        ctx.violate("an append that ran out of memory leaks (a descriptor or heap block is still there after the message was released): " + out,
+                    {"kind": "lib-oom", "suite": "oomleak", "out": out}, True)
+    ctx.oblige("failed appends leak nothing: every basic type incl. UNIX_FD, every allocation failed in turn, message released, open descriptors "
+               "and outstanding blocks compared (%s)" % out, "correspondence", okl)
+    cov["append_leak_sweep"] = out
     # --- match rules
     lines = []
     for i in range(1500 if quick else 30000):
@@ -214,6 +224,14 @@ def run(ctx):
 def replay(path):
     data = json.load(open(path))
     rp = data["replay"]
+    if rp.get("kind") == "lib-oom" and rp.get("suite") == "oomleak":
+        build.ensure_repo_build()
+        wire = build.cc("h_wire", ["harness/lib/h_wire.c"])
+        env = dict(os.environ); env.update(build.ASAN_ENV)
+        out = subprocess.run([wire], input="wire oomleak\n", text=True, capture_output=True, env=env).stdout.strip()
+        m = re.match(r"trials=(\d+) failed=(\d+) fd-leaks=(\d+) block-leaks=(\d+)", out)
+        print("replay C14 (failed appends leak nothing): " + out)
+        return 0 if m and int(m.group(3)) == 0 and int(m.group(4)) == 0 else 1
     if rp.get("kind") != "oom-case":
         print("replay: not an OOM case: %s" % data.get("what")); return 1
     os.makedirs(bus.RUNROOT, exist_ok=True)
